@@ -271,4 +271,27 @@ theorem unpackNumeric_intStr (pf : Option Nat) (t : IntTy) (v : Int) (h1 : t.lo 
   simp only [pyStrip_intStr, intStr_not_hex, intOfStr_intStr v (int_digits_bound t v h1 h2), Bool.false_eq_true, if_false,
     mkIntCfg_plain t v h1 h2, Except.map]
 
+/-! ### module-level tocimxml(): arrays of integers with None items -/
+
+theorem item_rt_int (f17 f11 : Nat → List Char) (utf8 : List Nat → Option (List Char)) (pf : List Char → Option Nat)
+    (t : IntTy) (s : Sc) (h : s = .none ∨ ∃ v, s = .cimInt t v ∧ t.lo ≤ v ∧ v ≤ t.hi) :
+    ∃ x, tocimxmlItem f17 f11 utf8 true s = .ok x ∧ unpackItem pf (.num (.int t)) x = .ok s := by
+  rcases h with rfl | ⟨v, rfl, h1, h2⟩
+  · exact ⟨.valueNull, rfl, rfl⟩
+  · refine ⟨.value (some (intStr v)), rfl, ?_⟩
+    simp only [unpackItem, unpackSingleValue]
+    exact unpackNumeric_intStr _ t v h1 h2
+
+theorem array_rt_int (f17 f11 : Nat → List Char) (utf8 : List Nat → Option (List Char)) (pf : List Char → Option Nat)
+    (t : IntTy) (l : List Sc) (h : ∀ s ∈ l, s = .none ∨ ∃ v, s = .cimInt t v ∧ t.lo ≤ v ∧ v ≤ t.hi) :
+    ∃ xs, l.mapM (tocimxmlItem f17 f11 utf8 true) = .ok xs ∧ xs.mapM (unpackItem pf (.num (.int t))) = .ok l := by
+  induction l with
+  | nil => exact ⟨[], rfl, rfl⟩
+  | cons s r ih =>
+    obtain ⟨x, hx1, hx2⟩ := item_rt_int f17 f11 utf8 pf t s (h s (by simp))
+    obtain ⟨xs, hxs1, hxs2⟩ := ih (fun s' hs' => h s' (by simp [hs']))
+    refine ⟨x :: xs, ?_, ?_⟩
+    · simp [List.mapM_cons, hx1, hxs1, bind, Except.bind, pure, Except.pure]
+    · simp [List.mapM_cons, hx2, hxs2, bind, Except.bind, pure, Except.pure]
+
 end Proofs.CimTypes
